@@ -113,10 +113,14 @@ package validator
 //@ func defineIdRecursively(node *types.ObjectMap, id string)
 //@   requires node != nil
 //@   ensures [C03:only-ids] forall m map[string]any, k string :: k != "@id" ==> (has(m, k) == old(has(m, k)) && m[k] == old(m[k]))
+//@   ensures [C12:ids-are-never-removed] forall m map[string]any :: old(has(m, "@id")) ==> has(m, "@id")
+//@   ensures [C12:typed-node-gets-an-id] old(has(deref(node), "@type")) ==> has(old(deref(node)), "@id")
 //@   loop 1 /* for k, v := range *node */
 //@     invariant [C03] forall m map[string]any, k string :: k != "@id" ==> (has(m, k) == old(has(m, k)) && m[k] == old(m[k]))
+//@     invariant [C12] (forall m map[string]any :: old(has(m, "@id")) ==> has(m, "@id")) && has(old(deref(node)), "@id")
 //@   loop 2 /* for index, e := range v */
 //@     invariant [C03] forall m map[string]any, k string :: k != "@id" ==> (has(m, k) == old(has(m, k)) && m[k] == old(m[k]))
+//@     invariant [C12] (forall m map[string]any :: old(has(m, "@id")) ==> has(m, "@id")) && has(old(deref(node)), "@id")
 
 //@ func buildValidation(level string, id string, raw any) types.ObjectMap
 //@   requires [C17:is-map] is(raw, map[string]any) && raw.(map[string]any) != nil
